@@ -27,7 +27,7 @@ Inductive errno :=
 
 Inductive op :=
   | ONew (c : bytes)                    (* the caller allocates a slice with content c *)
-  | OMut (h : nat) (c : bytes)          (* the caller overwrites the slice behind handle h *)
+  | OMut (h : nat) (c : bytes)          (* the caller does copy(slice h, c) *)
   | OPut (k : key) (h : nat)            (* storage.Put(store, k, slice h) *)
   | OPutStream (k : key) (hs : list nat)(* storage.PutStream; Write(slice h) for h in hs; commit(k) *)
   | OPutVec (k : key) (hs : list nat)   (* storage.PutVec(store, k, [slices hs]) *)
@@ -52,6 +52,9 @@ Fixpoint upd {A} (l : list A) (i : nat) (x : A) : list A :=
   | _ :: r, O => x :: r
   | y :: r, S j => y :: upd r j x
   end.
+
+(* Go's copy(dst, src): the first min(len) bytes of dst are overwritten, the length stays *)
+Definition go_copy (dst src : bytes) : bytes := firstn (length dst) src ++ skipn (length src) dst.
 
 (* contents of a list of handles, in order; None if a handle does not exist *)
 Fixpoint gather {A} (f : nat -> option A) (hs : list nat) : option (list A) :=
@@ -129,7 +132,7 @@ Definition mem_step (cfg : mcfg) (m : mem) (o : op) : mem * obs :=
   | ONew c => let '(m1, id) := alloc m c in (add_handle m1 id, OUnit)
   | OMut h c =>
       match nth_error (m_hnd m) h with
-      | Some id => ({| m_heap := upd (m_heap m) id c; m_bag := m_bag m; m_hnd := m_hnd m |}, OUnit)
+      | Some id => ({| m_heap := upd (m_heap m) id (go_copy (hget m id) c); m_bag := m_bag m; m_hnd := m_hnd m |}, OUnit)
       | None => (m, OBadHandle)
       end
   | OPut k h =>
@@ -216,7 +219,7 @@ Definition spec_step (proj : key -> option key) (full : bool) (s : spec) (o : op
   | ONew c => (s_add s c false, OUnit)
   | OMut h c =>
       match nth_error (s_hnd s) h with
-      | Some (_, b) => ({| s_map := s_map s; s_hnd := upd (s_hnd s) h (c, b) |}, OUnit)
+      | Some (old, b) => ({| s_map := s_map s; s_hnd := upd (s_hnd s) h (go_copy old c, b) |}, OUnit)
       | None => (s, OBadHandle)
       end
   | OPut k h =>
